@@ -44,6 +44,7 @@ func RunBubble(t *testing.T, c Case) (res *Result, stuck string, err error) {
 			ss := make([]stream.Stream[int], len(inners))
 			for i := range inners {
 				inners[i].Gaps = gaps(len(inners[i].Items), e.srcGap*time.Duration(i+1))
+				inners[i].CloseDelay = time.Duration(c.CloseMs) * time.Millisecond
 				ss[i] = inners[i]
 				addSource(e, inners[i], nil)
 			}
